@@ -247,8 +247,8 @@ def build_recording(tier):
             ("Pipeline_c10maskcore.cfg", None, 10 ** 6, A0), ("Pipeline_c10enf.cfg", None, 10 ** 6, A0), ("Pipeline_c10twin.cfg", None, 10 ** 6, A0),
             ("Pipeline_c13sim.cfg", 300 if thorough else 24, None, V0 + A0),
             ("Pipeline_c14sim.cfg", 900 if thorough else 30, None, V0), ("Pipeline_c14types.cfg", None, 10 ** 6, V0), ("Pipeline_c14generics.cfg", None, 10 ** 6, V0)]
-    if len(plan) != 22:
-        raise c.Trouble("the F1 plan lists %d input sets, 22 are registered (a set was dropped by accident?)" % len(plan))
+    if len(plan) != 21:
+        raise c.Trouble("the F1 plan lists %d input sets, 21 are registered (a set was dropped by accident?)" % len(plan))
     if thorough:
         plan.append(("Pipeline_c10sim.cfg", None, 800, A0))     # every double perturbation, enumerated; a stratified sample is run
     import concurrent.futures
